@@ -16,8 +16,29 @@ impl BackKawa {
     pub uninterp spec fn spec_terminated(&self) -> bool;
     #[verifier::external_body] pub fn is_main_phase(&self) -> (r: bool) ensures r == self.spec_main_phase() { unimplemented!() }
     #[verifier::external_body] pub fn is_terminated(&self) -> (r: bool) ensures r == self.spec_terminated() { unimplemented!() }
+    pub uninterp spec fn spec_completed(&self) -> bool;
+    pub uninterp spec fn spec_initial(&self) -> bool;
+    pub uninterp spec fn spec_error(&self) -> bool;
+    #[verifier::external_body] pub fn is_completed(&self) -> (r: bool) ensures r == self.spec_completed() { unimplemented!() }
+    #[verifier::external_body] pub fn is_initial(&self) -> (r: bool) ensures r == self.spec_initial() { unimplemented!() }
+    #[verifier::external_body] pub fn is_error(&self) -> (r: bool) ensures r == self.spec_error() { unimplemented!() }
 }
-pub struct FrontKawa { pub consumed: bool }
+pub struct FrontKawa { pub consumed: bool, pub verif_rest: FrontRest }
+#[verifier::external_body] pub struct FrontRest { _p: () }
+// the other kawa::Kawa state accessors on the request side: uninterpreted (independent of `consumed`), so a decision
+// that consults them instead of `consumed` is not accepted as equivalent
+impl FrontKawa {
+    pub uninterp spec fn spec_completed(&self) -> bool;
+    pub uninterp spec fn spec_terminated(&self) -> bool;
+    pub uninterp spec fn spec_initial(&self) -> bool;
+    pub uninterp spec fn spec_main_phase(&self) -> bool;
+    pub uninterp spec fn spec_error(&self) -> bool;
+    #[verifier::external_body] pub fn is_completed(&self) -> (r: bool) ensures r == self.spec_completed() { unimplemented!() }
+    #[verifier::external_body] pub fn is_terminated(&self) -> (r: bool) ensures r == self.spec_terminated() { unimplemented!() }
+    #[verifier::external_body] pub fn is_initial(&self) -> (r: bool) ensures r == self.spec_initial() { unimplemented!() }
+    #[verifier::external_body] pub fn is_main_phase(&self) -> (r: bool) ensures r == self.spec_main_phase() { unimplemented!() }
+    #[verifier::external_body] pub fn is_error(&self) -> (r: bool) ensures r == self.spec_error() { unimplemented!() }
+}
 pub struct HttpContext { pub keep_alive_backend: bool }
 pub struct Stream { pub back: BackKawa, pub front: FrontKawa, pub context: HttpContext }
 
